@@ -504,6 +504,11 @@ fn case_json(rng: &mut Rng, jm: &JModel, directed: Option<usize>, nest: Option<b
             _ => { let (t, c) = gen_lit(rng, f.ty); let t = format!("{}: {} ", f.name, t); text += &t; text_forced += &t; lits.push(format!("({}, {})", gn(f.short), c)); }
         }
     }
+    // the grammar wants at least one field in a nested entity (`entity_ref = "{" field+ "}"`, a root entity takes `field*`)
+    if nest.is_some() && lits.is_empty() {
+        let f = &fs[0];
+        let (t, c) = valid_lit(f.ty); let t = format!("{}: {} ", f.name, t); text += &t; text_forced += &t; lits.push(format!("({}, {})", gn(f.short), c));
+    }
     text += closing;
     text_forced += closing;
     let mut obs;
